@@ -20,7 +20,7 @@ ID = "C12"
 DESIGN_REF = "DESIGN.md §4 C12"
 EXPLORER = "E1 product-space"
 RULE = (
-    "cases = feature matrix x weights x 4 flag combinations (KernelNormalizer, with test sets of 1, n-1, n, n+2 rows) and "
+    "cases = feature matrix x weights x 4 flag combinations (KernelNormalizer, with test sets of 1, n-1, n, n+2 rows; each also on a USED instance fitted before with the other weight form on another kernel of the same size) and "
     "feature matrix x active set (every subset of size 1..3) x weights x 4 flags (SparseKernelCenterer); non-trivial = "
     "non-uniform weights with a rectangular test kernel, or an active set of size >= 2; states = transformed kernels judged"
 )
@@ -80,10 +80,13 @@ def cases(group):
         for (wc, wt) in FLAGS:
             if group["kind"] == "dense":
                 yield dict(kind="dense", X=X, w=w, with_center=wc, with_trace=wt)
+                yield dict(kind="dense", X=X, w=w, with_center=wc, with_trace=wt, used=True)
             else:
                 for size in (1, 2, 3):
                     for act in itertools.combinations(range(n), size):
                         yield dict(kind="sparse", X=X, w=w, with_center=wc, with_trace=wt, active=list(act))
+                        if size == 2 and act[0] == 0:
+                            yield dict(kind="sparse", X=X, w=w, with_center=wc, with_trace=wt, active=list(act), used=True)
 
 
 def _test_features(v, m):
@@ -113,6 +116,9 @@ def check(case):
         tol = 1e-9 * kscale / min(1.0, s)
         kn = KernelNormalizer(with_center=wc, with_trace=wt)
         try:
+            if case.get("used"):
+                Po = Phi[::-1] * 0.5 + 0.25
+                kn.fit(Po @ Po.T, sample_weight=None if sw is not None else np.arange(1.0, n + 1.0))
             kn.fit(K.copy(), sample_weight=sw)
             Kt = np.asarray(kn.transform(K.copy()), float)
         except Exception as e:
@@ -157,6 +163,9 @@ def check(case):
         return r.skip("centred Nystrom kernel has (numerically) zero trace")
     sc = SparseKernelCenterer(with_center=wc, with_trace=wt)
     try:
+        if case.get("used"):
+            Po = Phi[::-1] * 0.5 + 0.25
+            sc.fit(Po @ Po[act].T, Po[act] @ Po[act].T, sample_weight=None if sw is not None else np.arange(1.0, n + 1.0))
         sc.fit(Knm.copy(), Kmm.copy(), sample_weight=sw)
         Kt = np.asarray(sc.transform(Knm.copy()), float)
     except Exception as e:
